@@ -7,8 +7,10 @@ import (
 	"bytes"
 	stdjson "encoding/json"
 	"fmt"
+	"math/big"
 	"reflect"
 	"sort"
+	"strconv"
 	"strings"
 
 	"github.com/segmentio/encoding/json"
@@ -43,7 +45,7 @@ type jsonCase struct {
 	Scen    *jsonVec `json:"scenario,omitempty"`
 	Nils    int      `json:"nils,omitempty"`
 	Prefill int      `json:"prefill,omitempty"` // the interfaces of the target hold pointers before the decode (variant)
-	At      int      `json:"at,omitempty"` // Decoder(refill): how many bytes of the document arrive with the first fill of the buffer
+	At      int      `json:"at,omitempty"`      // Decoder(refill): how many bytes of the document arrive with the first fill of the buffer
 }
 
 const jLimit = 8
@@ -171,12 +173,119 @@ func c01Vector(c *Ctx, raw stdjson.RawMessage) {
 	c.Sample(map[string]any{"shape": v.Shape.String(), "values": len(vals)})
 }
 
+// c01Number: one number text as every kind that can hold it, against encoding/json (the integer formatter sizes its
+// output by the number of digits; the float formatter switches notation at 1e21 and 1e-6 and differs for float32)
+func c01Number(c *Ctx, text string) {
+	k := jsonCase{Setting: "number:" + text}
+	var xs []any
+	if n, err := strconv.ParseInt(text, 10, 64); err == nil {
+		xs = append(xs, n, int(n), []int64{n, n}, map[string]int64{"k": n}, struct{ A int64 }{n}, &n)
+		if int64(int32(n)) == n {
+			xs = append(xs, int32(n))
+		}
+		if int64(int16(n)) == n {
+			xs = append(xs, int16(n))
+		}
+		if int64(int8(n)) == n {
+			xs = append(xs, int8(n))
+		}
+	}
+	if n, err := strconv.ParseUint(text, 10, 64); err == nil {
+		xs = append(xs, n, uint(n), uintptr(n), []uint64{n}, map[uint64]string{n: "v"})
+		if uint64(uint32(n)) == n {
+			xs = append(xs, uint32(n))
+		}
+		if uint64(uint16(n)) == n {
+			xs = append(xs, uint16(n))
+		}
+		if uint64(uint8(n)) == n {
+			xs = append(xs, uint8(n))
+		}
+	}
+	if f, err := strconv.ParseFloat(text, 64); err == nil {
+		xs = append(xs, f, float32(f), []float64{f, -f}, []float32{float32(f)}, map[string]any{"f": f}, struct {
+			F float32 `json:",string"`
+			G float64 `json:",omitempty"`
+		}{float32(f), f})
+	}
+	for _, x := range xs {
+		c.Case()
+		wb, we := stdjson.Marshal(x)
+		var gb []byte
+		var ge error
+		if p := protect(func() { gb, ge = json.Marshal(x) }); p != "" {
+			c.Diverge("C01", fmt.Sprintf("json.Marshal(%T)", x), clipS(string(wb)), p, "", k)
+			continue
+		}
+		c01Compare(c, k, fmt.Sprintf("json.Marshal(%T)", x), wb, we, gb, ge, "")
+		gb, ge = json.Append(make([]byte, 0, 64), x, json.EscapeHTML|json.SortMapKeys)
+		c01Compare(c, k, fmt.Sprintf("json.Append(%T, roomy destination)", x), wb, we, gb, ge, "")
+	}
+}
+
+// c01Deep: values with sharing but no cycle, at the top and below the depth from which the encoders start recording
+// what they visit (1000): an error exactly when encoding/json has one, else the same bytes
+func c01Deep(c *Ctx) {
+	for _, depth := range []int{0, 998, 999, 1000, 1001, 1500} {
+		leaf := &hnode{V: 3}
+		shared := &hnode{V: 2, M: map[string]*hnode{"k": leaf}, S: []*hnode{leaf}}
+		roots := []any{
+			deepen(&hnode{V: 1, P: shared, S: []*hnode{shared, shared}}, depth),
+			deepen(&hnode{V: 1, M: map[string]*hnode{"a": shared, "b": shared}, I: shared}, depth),
+			deepen(&hnode{V: 1, I: []any{shared.M, shared.M, map[string]any{"x": shared.S, "y": shared.S}}}, depth),
+		}
+		for i, x := range roots {
+			k := jsonCase{Setting: fmt.Sprintf("deep:%d:%d", depth, i)}
+			c.Case()
+			wb, we := stdjson.Marshal(x)
+			var gb []byte
+			var ge error
+			if p := protect(func() { gb, ge = json.Marshal(x) }); p != "" {
+				c.Diverge("C01", "json.Marshal(shared, no cycle)", errStr(we), p, "", k)
+				continue
+			}
+			c01Compare(c, k, "json.Marshal(shared, no cycle)", wb, we, gb, ge, "")
+		}
+	}
+}
+
+func c01Numbers(c *Ctx) {
+	c01Deep(c)
+	pow := new(big.Int).SetInt64(1)
+	ten := big.NewInt(10)
+	for e := 0; e <= 20; e++ {
+		for _, d := range []int64{-1, 0, 1} {
+			v := new(big.Int).Add(pow, big.NewInt(d))
+			c01Number(c, v.String())
+			c01Number(c, new(big.Int).Neg(v).String())
+		}
+		if e >= 2 {
+			c01Number(c, new(big.Int).Add(pow, new(big.Int).Exp(ten, big.NewInt(int64(e/2)), nil)).String())
+		}
+		pow.Mul(pow, ten)
+	}
+	for _, f := range []string{"1e20", "1e21", "9.999999999999999e20", "999999999999999900000", "1e-6", "1e-7", "9.999999e-7", "0.000001", "123456789.125",
+		"5e-324", "1.7976931348623157e308", "3.4028234663852886e38", "1e-45", "1.401298464324817e-45", "16777216", "16777217", "0.1", "0.30000000000000004",
+		"1.00000005960464477539062500001", "100", "1e2", "12345678901234567890", "4.9406564584124654e-324", "2.2250738585072014e-308", "1e23", "8.41e21"} {
+		c01Number(c, f)
+		c01Number(c, "-"+f)
+	}
+}
+
 func c01Replay(c *Ctx, raw stdjson.RawMessage) {
 	if strDispatch(c, raw) {
 		return
 	}
 	var k jsonCase
 	if stdjson.Unmarshal(raw, &k) != nil {
+		return
+	}
+	if strings.HasPrefix(k.Setting, "deep:") {
+		c01Deep(c)
+		return
+	}
+	if strings.HasPrefix(k.Setting, "number:") {
+		c01Number(c, strings.TrimPrefix(k.Setting, "number:"))
 		return
 	}
 	if k.Scen != nil {
@@ -312,7 +421,7 @@ func c01Scenario(c *Ctx, v *jsonVec) {
 }
 
 func init() {
-	register("C01", &Driver{Vector: c01Vector, Replay: c01Replay})
+	register("C01", &Driver{Vector: c01Vector, Replay: c01Replay, Extra: c01Numbers})
 }
 
 // ---------------------------------------------------------------- C02
@@ -361,6 +470,12 @@ var c02Tokens = []string{"null", "true", "false", `"str"`, `""`, `"12"`, `"-1.5"
 	"127", "128", "-129", "255", "256", "32768", "65536", "2147483648", "-2147483649", "4294967296", "9223372036854775807", "9223372036854775808",
 	"-9223372036854775808", "-9223372036854775809", "18446744073709551615", "18446744073709551616", "108446744073709551616", "36893488147419103232",
 	"1e400", "-1e400", "1e-400", "123456789012345678901234567890", "0.1e1", "1.0", "3.4028236e38", "1.7976931348623159e308",
+	// literals around the midpoints between adjacent float32 / float64 values (one rounding, to the width of the target)
+	"1.00000005960464477539062500001", "1.000000059604644775390625", "1.00000005960464477539062499999", "1.00000017881393432617187499999",
+	"16777217.0000000000001", "16777217", "3.40282356779733661637539395458142568447e38", "3.4028235677973366e38", "7.006492321624085e-46", "7.006492321624086e-46",
+	"9007199254740993", "9007199254740993.0000000000001", "1.00000000000000011102230246251565404236316680908203125",
+	"1.00000000000000011102230246251565404236316680908203124", "1.00000000000000011102230246251565404236316680908203126",
+	"2.4703282292062327e-324", "2.4703282292062328e-324", "1.797693134862315807e308", "1.7976931348623158e308", "0.000000000000000000000000000000000000000000001",
 	"{}", "[]", `{"A":1}`, `[1]`, `[null]`, `{"a":null}`, `"2021-03-25T21:36:12Z"`, `"2021-03-25T21:36:12,5Z"`, `"aGVsbG8="`, `"a"`, `"é😀"`, `"\ud800"`, `"\u0000"`,
 	`"tm:x"`, `[1,2,3]`, `["a","b","c"]`, `{"x":{"y":[]}}`, " 7 ", `"\/"`}
 
@@ -448,10 +563,20 @@ func prefillAny(v reflect.Value, variant, depth int) {
 	}
 	switch v.Kind() {
 	case reflect.Interface:
-		if v.NumMethod() != 0 || !v.CanSet() {
+		if !v.CanSet() {
 			return
 		}
-		switch variant % 6 {
+		if v.NumMethod() != 0 {
+			if v.Type() == reflect.TypeOf((*IFace)(nil)).Elem() {
+				v.Set(reflect.ValueOf(&IP{B: "old"})) // decoded through, like any pointer held by an interface
+			}
+			return
+		}
+		switch variant % 8 {
+		case 6:
+			v.Set(reflect.ValueOf((*string)(nil))) // a nil pointer is not decoded through: replaced
+		case 7:
+			v.Set(reflect.ValueOf("old")) // nor is anything that is not a pointer
 		case 0:
 			s := "old"
 			v.Set(reflect.ValueOf(&s))
@@ -684,7 +809,7 @@ func c02Vector(c *Ctx, raw stdjson.RawMessage) {
 			}
 			mode := c02Modes[r.intn(len(c02Modes))]
 			c.Case()
-			c02Decode(c, jsonCase{Shape: v.Shape, Seed: c.Seed, Docs: []string{doc}, Setting: mode, Prefill: 1 + r.intn(6)}, t, []string{doc}, mode)
+			c02Decode(c, jsonCase{Shape: v.Shape, Seed: c.Seed, Docs: []string{doc}, Setting: mode, Prefill: 1 + r.intn(8)}, t, []string{doc}, mode)
 		}
 	}
 	c.Sample(map[string]any{"shape": v.Shape.String(), "docs": len(docs), "doc": docs[len(docs)/2]})
